@@ -620,6 +620,7 @@ class _BaseWindowForecaster(_SktimeForecaster):
         y_pred : pd.Series or pd.DataFrame
         """
         self.check_is_fitted()
+        y = check_y(y)
         if cv is not None:
             cv = check_cv(cv)
         else:
